@@ -388,7 +388,25 @@ def evaluate(prop, drv, cases, variants=None):
             else:
                 still.append(i)
         pending = still
+    # a disagreement is re-confirmed once, serially, before it counts: under machine load a case can
+    # time out or be cut short in a pool worker; the number of such retractions is reported
+    still = []
     for i in pending:
+        again = run_impl_safe(prop, cases[i], prop.case_timeout_s * 2)
+        if again != res[i]["impl"]:
+            ok = False
+            for v in variants:
+                blk = from_impl(cases[i], v, again) if from_impl else prop.model_block(cases[i], v)
+                o = prop.model_postprocess(cases[i], drv.run_blocks([blk])[0])
+                if o == prop.compare_view(cases[i], again):
+                    res[i].update(impl=again, model=o, agree=True, variant=v, retracted=True)
+                    ok = True
+                    break
+            if ok:
+                continue
+            res[i]["impl"] = again
+        still.append(i)
+    for i in still:
         res[i]["agree"] = False
     jidx, jblocks = [], []
     for i, r in enumerate(res):
@@ -614,6 +632,7 @@ def run_property(prop, tier="quick", seed=0, n_cases=None, replay=None):
         variants_matched={v: sum(1 for r in results if r["variant"] == v) for v in prop.variants},
         known_finding_hits=known_hits, search_inputs=searched, extra_checks=len(extra_results),
         impl_exceptions=sum(1 for r in results if r["impl"] and r["impl"][0].startswith("IMPL-")),
+        retracted_after_serial_rerun=sum(1 for r in results if r.get("retracted")),
         replays=replay_paths, build_s=round(build_s, 2),
     )
     coverage.update(ctx.stats)
